@@ -633,7 +633,7 @@ class MOLGP2(MOLGP):
                     k[..., scond] = 0.0
                     if deriv:
                         for s in range(X0T.shape[0]):
-                            dkdX0T[:, s, cond[s], :] = 0.0
+                            dkdX0T[:, s][:, :, cond[s]] = 0.0
                             dm[s][:, cond[s]] = 0.0
                             da[s][:, cond[s]] = 0.0
                 if kernel.mode == "SEP":
@@ -655,10 +655,11 @@ class MOLGP2(MOLGP):
                         ddesc_tmp = wt * self._get_normalized_feature_derivs(
                             desc[s, :, i0:i1], ddesc_tmp[:, i0:i1]
                         )
-                        drho_tmp = wt * drho_data[orb][:, i0:i1]
+                        # drho_data[orb] is (spin, drho), like ddesc[orb]
+                        drho_tmp = wt * drho_data[orb][1][:, i0:i1]
                         dvwrtt_tot[orb] += np.einsum("cdn,dn->c", dkm1[:, s], ddesc_tmp)
                         dvwrtt_tot[orb] += np.einsum("cdn,dn->c", dkm2[:, s], drho_tmp)
-                        dbaseline[orb] += np.dot(da * drho_tmp, wt)
+                        dbaseline[orb] += (da[s] * drho_tmp).sum()
             kernel.cov_dict[mol_id] = vwrtt_tot
             kernel.base_dict[mol_id] = baseline
             if save_refs:
